@@ -281,6 +281,7 @@ def build_instance(name, p):
             "RS-sub": ("-", a, b),
             "RS-sub-const": ("-", a, C(kk)),
             "RS-sub-term": ("-", a, term(kk, v, m)),
+            "RS-sub-quotient": ("-", a, ("/", C(kk), b)),
             "RS-sub-negconst": ("-", a, C(-kk)),
             "RS-sub-negvar": ("-", a, ("neg", V(v))),
             "RS-sub-negterm": ("-", a, term(-kk, v, m)),
@@ -360,7 +361,7 @@ def _sum_folded(res, lhs, k1, k2):
 SCHEMAS = [
     "CS-add", "CS-mul", "CS-chain", "CS-flip", "CS-refuse", "AG-left", "AG-right", "AG-refuse", "CA-simple", "CA-neg", "CA-sibling", "CA-alt", "CA-refuse",
     "DF-simple", "DF-chained-left", "DF-chained-right", "DF-constants", "DF-constants-refuse", "DF-refuse", "DM-right", "DM-left", "DM-refuse", "MI", "MI-neg",
-    "MI-refuse", "RS-sub", "RS-sub-const", "RS-sub-term", "RS-sub-negconst", "RS-sub-negvar", "RS-sub-negterm", "RS-add-negconst", "RS-add-negterm", "RS-refuse",
+    "MI-refuse", "RS-sub", "RS-sub-const", "RS-sub-term", "RS-sub-quotient", "RS-sub-negconst", "RS-sub-negvar", "RS-sub-negterm", "RS-add-negconst", "RS-add-negterm", "RS-refuse",
     "VM", "VM-refuse", "BM-add", "BM-add3", "BM-mul", "BM-refuse", "CA-zero",
 ]
 
